@@ -124,16 +124,15 @@ func evalModuleBody(vm *r.VM, program *syntax.Program) error {
 	err := hoistDeclarations(vm, execBlock.StmtBlock)
 	if err == nil {
 		vm.BeginJoinedScope()
-		if _, err = evalStmtsInCurrentScope(vm, execBlock.StmtBlock); err != nil {
-			vm.EndScope()
-		}
+		_, err = evalStmtsInCurrentScope(vm, execBlock.StmtBlock)
 	}
 	if err != nil {
-		// as in any body, the 拦截 blocks of the module get their chance
-		if _, err = handleExceptionSignal(vm, blockModule, execBlock.CatchBlock, err); err != nil {
-			vm.EndScope()
-			return err
-		}
+		// as in any body, the 拦截 blocks of the module get their chance. What the body had
+		// declared before it was interrupted stays (a handled exception is an end of the
+		// body like any other): it becomes the root level before the handler runs
+		vm.KeepScopeAsRoot()
+		_, err = handleExceptionSignal(vm, blockModule, execBlock.CatchBlock, err)
+		return err
 	}
 	vm.KeepScopeAsRoot()
 	return nil
